@@ -143,8 +143,8 @@ def tlc(module, cfg, workers="auto", files=None, timeout=900, extra=(), deadlock
         cmd += ["-depth", str(depth)]
     cmd += list(extra) + [module]
     e = dict(os.environ)
-    if javaopts:
-        e["JAVA_TOOL_OPTIONS"] = javaopts
+    # TLC creates an empty tlc-<n> directory in java.io.tmpdir per run: keep it inside the scratch dir
+    e["JAVA_TOOL_OPTIONS"] = ((javaopts + " ") if javaopts else "") + "-Djava.io.tmpdir=" + wd
     rc, out = sh(cmd, cwd=wd, env=e, timeout=timeout)
     res = dict(rc=rc, out=out, workdir=wd, generated=0, distinct=0, depth=0)
     m = re.findall(r"(\d+) states generated, (\d+) distinct states found", out)
